@@ -134,3 +134,155 @@ Proof.
   intros p H. simpl in H.
   destruct H as [H | [H | [H | [H | []]]]]; subst p; vm_compute; split; reflexivity.
 Qed.
+
+(* ------------------------------------------------------------------ two passes decide every N *)
+(* loop() contains no configuration request: declarations at the top of [while True:] are configured in the hoisted
+   block, so a pass is assignments and pin accesses only *)
+Fixpoint pure (l : list act) : bool :=
+  match l with
+  | [] => true
+  | ASet _ _ :: t => pure t
+  | AUse _ _ :: t => pure t
+  | _ => false
+  end.
+
+(* what a pure pass leaves of V *)
+Fixpoint after (l : list act) (V : vset) : vset :=
+  match l with
+  | ASet x _ :: t => after t (vkill x V)
+  | _ :: t => after t V
+  | [] => V
+  end.
+
+Lemma vkill_comm : forall x y V, vkill x (vkill y V) = vkill y (vkill x V).
+Proof.
+  intros x y V. unfold vkill. induction V as [| c V IH]; simpl; [reflexivity |].
+  destruct (negb (mentions y (fst c))) eqn:Hy; destruct (negb (mentions x (fst c))) eqn:Hx; simpl;
+    rewrite ?Hy, ?Hx; simpl; rewrite IH; reflexivity.
+Qed.
+
+Lemma vkill_idem : forall x V, vkill x (vkill x V) = vkill x V.
+Proof.
+  intros x V. unfold vkill. induction V as [| c V IH]; simpl; [reflexivity |].
+  destruct (negb (mentions x (fst c))) eqn:Hx; simpl; rewrite ?Hx; simpl; rewrite IH; reflexivity.
+Qed.
+
+Lemma after_vkill : forall l x V, after l (vkill x V) = vkill x (after l V).
+Proof.
+  induction l as [| a t IH]; intros x V; simpl; [reflexivity |].
+  destruct a as [y e | k e m | e m | e w]; try apply IH.
+  rewrite vkill_comm. apply IH.
+Qed.
+
+Lemma after_idem : forall l V, after l (after l V) = after l V.
+Proof.
+  induction l as [| a t IH]; intros V; simpl; [reflexivity |].
+  destruct a as [y e | k e m | e m | e w]; try apply IH.
+  rewrite after_vkill, IH, after_vkill, vkill_idem. reflexivity.
+Qed.
+
+Lemma static_ok_pure_app : forall l1 l2 seen V, pure l1 = true ->
+  static_ok seen V (l1 ++ l2) = static_ok seen V l1 && static_ok seen (after l1 V) l2.
+Proof.
+  induction l1 as [| a t IH]; intros l2 seen V HP; simpl in *; [reflexivity |].
+  destruct a as [x e | k e m | e m | e w]; try discriminate.
+  - apply IH; exact HP.
+  - rewrite (IH l2 seen V HP). rewrite andb_assoc. reflexivity.
+Qed.
+
+Lemma pure_app : forall a b, pure a = true -> pure b = true -> pure (a ++ b) = true.
+Proof.
+  induction a as [| x t IH]; intros b HA HB; simpl in *; [exact HB |].
+  destruct x; try discriminate; apply IH; assumption.
+Qed.
+
+Lemma repeat_two_all : forall P seen n V, pure P = true ->
+  static_ok seen V P = true -> static_ok seen (after P V) P = true ->
+  static_ok seen V (repeat_acts n P) = true.
+Proof.
+  intros P seen n. induction n as [| n IH]; intros V HP H1 H2; simpl; [reflexivity |].
+  rewrite (static_ok_pure_app P _ seen V HP). rewrite H1. simpl.
+  apply IH; [exact HP | exact H2 | rewrite after_idem; exact H2].
+Qed.
+
+Lemma pure_uses_w : forall pins, pure (uses_w pins) = true.
+Proof. induction pins as [| e r IH]; simpl; [reflexivity | exact IH]. Qed.
+
+Lemma pure_cmd_uses : forall b, pure (cmd_uses b) = true.
+Proof.
+  intros [[nm k] pins]. unfold cmd_uses. simpl.
+  destruct k; try apply pure_uses_w; try reflexivity.
+  destruct pins as [| t [| e r]]; reflexivity.
+Qed.
+
+Lemma pure_lower_loop : forall kf all_rev l tab, pure (fst (lower kf all_rev false tab l)) = true.
+Proof.
+  intros kf all_rev. induction l as [| s r IH]; intros tab; simpl; [reflexivity |].
+  destruct s as [x e | k nm pins | nm].
+  - specialize (IH tab). destruct (lower kf all_rev false tab r) as [t tb]. simpl in *. exact IH.
+  - specialize (IH (rebind all_rev (nm, k, pins) :: tab)).
+    destruct (lower kf all_rev false (rebind all_rev (nm, k, pins) :: tab) r) as [t tb]. simpl in *. exact IH.
+  - specialize (IH tab). destruct (lower kf all_rev false tab r) as [t tb]. simpl in *.
+    apply pure_app; [| exact IH]. destruct (find_b nm tab); [apply pure_cmd_uses | reflexivity].
+Qed.
+
+Lemma pure_qpolls : forall all_rev, pure (qpolls all_rev) = true.
+Proof.
+  intros all_rev. unfold qpolls.
+  induction (fold_right insert_z [] (button_names [] all_rev)) as [| nm r IH]; simpl; [reflexivity |].
+  apply pure_app; [| exact IH].
+  destruct (find_b nm all_rev) as [[[n k] pins] |]; [| reflexivity].
+  destruct k; try reflexivity. destruct pins; reflexivity.
+Qed.
+
+(* the state of the tracker after a prefix *)
+Fixpoint st_after (seen : list pkey) (V : vset) (l : list act) : list pkey * vset :=
+  match l with
+  | [] => (seen, V)
+  | ASet x _ :: t => st_after seen (vkill x V) t
+  | AReq k e m :: t => if pkmem k seen then st_after seen V t else st_after (k :: seen) ((e, m) :: V) t
+  | ACfg e m :: t => st_after seen ((e, m) :: V) t
+  | AUse _ _ :: t => st_after seen V t
+  end.
+
+Lemma static_ok_app : forall l1 l2 seen V,
+  static_ok seen V (l1 ++ l2) =
+  static_ok seen V l1 && static_ok (fst (st_after seen V l1)) (snd (st_after seen V l1)) l2.
+Proof.
+  induction l1 as [| a t IH]; intros l2 seen V; simpl; [reflexivity |].
+  destruct a as [x e | k e m | e m | e w].
+  - apply IH.
+  - destruct (pkmem k seen); apply IH.
+  - apply IH.
+  - rewrite IH. rewrite andb_assoc. reflexivity.
+Qed.
+
+Lemma sketch_shape : forall kf p n, exists H P, pure P = true /\ sketch kf p n = H ++ repeat_acts n P /\
+  sketch kf p 2 = H ++ repeat_acts 2 P.
+Proof.
+  intros kf p n. unfold sketch.
+  set (all_rev := rev (qdecls (q_pre p) ++ qdecls (q_loop p))).
+  destruct (qhoist_pre kf [] (q_pre p)) as [h1 bi].
+  set (tab0 := map (rebind all_rev) (rev (qdecls (q_pre p)) ++ qdecls (q_loop p))).
+  destruct (lower kf all_rev true tab0 (q_pre p)) as [a1 tab1].
+  pose proof (pure_lower_loop kf all_rev (q_loop p) tab1) as HPL.
+  destruct (lower kf all_rev false tab1 (q_loop p)) as [a2 tb2]. simpl in HPL.
+  exists (h1 ++ qhoist_loop kf bi (q_loop p) ++ a1), (qpolls all_rev ++ a2).
+  split; [apply pure_app; [apply pure_qpolls | exact HPL] |].
+  split; rewrite <- !app_assoc; reflexivity.
+Qed.
+
+(* the guard evaluated for two passes decides it for every number of passes *)
+Lemma pins_tracked_two_all : forall kf p n, pins_tracked kf p 2 = true -> pins_tracked kf p n = true.
+Proof.
+  intros kf p n H2. unfold pins_tracked in *.
+  destruct (sketch_shape kf p n) as [H [P [HP [En E2]]]]. rewrite En. rewrite E2 in H2.
+  rewrite static_ok_app in H2 |- *. apply andb_true_iff in H2. destruct H2 as [HH H2]. rewrite HH. simpl.
+  destruct (st_after [] [] H) as [s V]. simpl in *.
+  rewrite (static_ok_pure_app P _ s V HP) in H2. apply andb_true_iff in H2. destruct H2 as [H21 H22].
+  rewrite app_nil_r in H22.
+  apply repeat_two_all; assumption.
+Qed.
+
+Lemma pins_cbu_all_passes : forall kf p, pins_tracked kf p 2 = true -> forall n, pcbu (run_sketch kf p n) = true.
+Proof. intros kf p H n. apply pins_tracked_cbu. apply pins_tracked_two_all. exact H. Qed.
